@@ -1,6 +1,6 @@
 (* C01 — Log content fidelity: nothing lost, nothing invented, nothing altered. *)
 From KV Require Import Base Model Spec SpecFacts LogInv ConsumeProofs GetProofs AbsFacts PublishProofs
-     DeleteProofs OpenProofs ReadsPreserve History Helpers ScanProofs.
+     DeleteProofs OpenProofs ReadsPreserve History XHistory Helpers ScanProofs.
 
 (* Every history of API calls — Open in any mode (Check / Recover / EagerVersionMigrate, read-write or
    read-only, any rollover size and format version), Close, Publish, Delete, every read, index-file removal,
@@ -74,3 +74,28 @@ Theorem C01_failed_publish_publishes_nothing :
   Good (fst (hstep H st (HPub ms))) /\ abs (fst (hstep H st (HPub ms))) = abs st.
 Proof. exact failed_publish_publishes_nothing. Qed.
 Print Assumptions C01_failed_publish_publishes_nothing.
+
+(* ... "across segment rollover at any size, deletes, trims, compaction, GC": the helper calls of delete.go, trim_*.go,
+   compact_*.go and compact.go (loops of Consume and Delete, transcribed in Helpers.v) and GC as steps of the same
+   histories.  Whatever a helper returns - also an error after some of its passes have already removed messages - the
+   log afterwards is the log before minus exactly the messages it reported, NextOffset unchanged.  The driver of the
+   correspondence runs executes these very steps (xh_step). *)
+Theorem C01_history_with_trims_compaction_gc :
+  forall (H : bytes -> Z) ops st,
+  Good st -> Good (fst (xh_run H st ops)) /\
+             abs (fst (xh_run H st ops)) = xh_spec_run (abs st) ops (snd (xh_run H st ops)).
+Proof. exact xhistory_refines. Qed.
+Print Assumptions C01_history_with_trims_compaction_gc.
+
+Theorem C01_helper_step :
+  forall (H : bytes -> Z) st op,
+  Good st -> Good (fst (xh_step H st op)) /\
+             abs (fst (xh_step H st op)) = xh_spec_step (abs st) op (snd (xh_step H st op)).
+Proof. exact xh_step_good. Qed.
+Print Assumptions C01_helper_step.
+
+(* NextOffset never moves back along such a history *)
+Theorem C01_next_offset_never_moves_back :
+  forall ops outs a, anext a <= anext (xh_spec_run a ops outs).
+Proof. exact xh_spec_run_next. Qed.
+Print Assumptions C01_next_offset_never_moves_back.
